@@ -653,6 +653,25 @@ def fuzz_jobs(ck, formats):
                 jobs.append({"id": rid, "type": gtype, "fmt": fmt, "path": path, "text": text, "src": "fuzz"})
                 k += 1
             ck.count("fuzz_%s_%s" % (gtype, fmt), k)
+    # hand-written gml / dot texts as a user would write them (not as cnfgen writes them): an edge stated
+    # twice, stated in both orientations, a directed or multi graph read as a simple one, attributes, comments
+    hand = {
+        "dot": ["graph G { 1 -- 2; 2 -- 1; }", "graph G { 1 -- 2; 1 -- 2; 2 -- 3; }", "strict graph G { 1 -- 2; 2 -- 1; 3; }",
+                "digraph G { 1 -> 2; 2 -> 1; }", "digraph G { 1 -> 2; 1 -> 2; 2 -> 3; }", "graph G { 1; 2; 3; 1 -- 3; 3 -- 1; 1 -- 3; }",
+                "graph G { a -- b; b -- a; b -- c; }", "graph { 1 -- 1; }", "graph G { 1 -- 2 [weight=3]; 2 -- 1 [weight=4]; }",
+                "graph G {\n  // a comment\n  10 -- 2;\n  2 -- 10;\n  9;\n}\n"],
+        "gml": ["graph [\n multigraph 1\n node [ id 1 ]\n node [ id 2 ]\n edge [ source 1 target 2 ]\n edge [ source 1 target 2 ]\n]\n",
+                "graph [\n multigraph 1\n node [ id 1 ]\n node [ id 2 ]\n node [ id 3 ]\n edge [ source 1 target 2 ]\n edge [ source 2 target 1 ]\n edge [ source 2 target 3 ]\n]\n",
+                "graph [\n directed 1\n node [ id 1 ]\n node [ id 2 ]\n edge [ source 1 target 2 ]\n edge [ source 2 target 1 ]\n]\n",
+                "graph [\n node [ id 1 label \"1\" ]\n node [ id 2 label \"2\" ]\n edge [ source 1 target 2 ]\n]\n",
+                "graph [\n directed 1\n multigraph 1\n node [ id 1 ]\n node [ id 2 ]\n edge [ source 1 target 2 ]\n edge [ source 1 target 2 ]\n]\n"]}
+    for gtype in ("simple", "digraph", "dag"):
+        for fmt in formats[gtype]:
+            for k, text in enumerate(hand.get(fmt, [])):
+                for path in ("stringio", "file"):
+                    rid = make_id("H", fmt, gtype, path, "%d:%s" % (k, text))
+                    jobs.append({"id": rid, "type": gtype, "fmt": fmt, "path": path, "text": text, "src": "hand"})
+            ck.count("handwritten_%s_%s" % (gtype, fmt), len(hand.get(fmt, [])))
     return jobs
 
 
